@@ -522,6 +522,15 @@ def ident_ok(s):
 def near_values(rng, v):
     """Literal candidates around a logged value: equal, near, and of other types."""
     out = []
+    # a literal in filter text is a plain int/float/str: never carry an enum / flag / str subclass into the model
+    if isinstance(v, int) and not isinstance(v, bool):
+        v = int(v)
+    elif isinstance(v, float):
+        v = float(v)
+    elif isinstance(v, str):
+        v = str(v)
+    elif isinstance(v, bytes):
+        v = bytes(v)
     if isinstance(v, bool):
         out += [True, False, 1, 0]
     elif isinstance(v, int):
@@ -672,6 +681,27 @@ def leaves(tree):
             yield from leaves(c)
 
 
+def _per_key_debug(tree, model, entry):
+    out = []
+    if tree[0] != "leaf" or len(tree[1]) != 4 or tree[3] is None:
+        return out
+    expected = resolve_expected(model, tree[3])
+    for block, idx, var, value, sub in model.fields:
+        if isinstance(sub, dict):
+            for k, v in sub.items():
+                if wildcard_match(str(k), tree[1][3]) and ref_cmp(tree[2], v, expected):
+                    real = None
+                    try:
+                        d = entry.message[block][idx].deserialize_var(var)
+                        d = getattr(d, "value", d) if not isinstance(d, dict) else d
+                        rv = d.get(k)
+                        real = (type(rv).__name__, repr(rv)[:120])
+                    except Exception as e:
+                        real = ("raised", repr(e)[:100])
+                    out.append((str(k), type(v).__name__, repr(v)[:120], real))
+    return out
+
+
 def semantics(ctx, world, rounds):
     rng = ctx.rng
     for rnd in range(rounds):
@@ -727,7 +757,10 @@ def semantics(ctx, world, rounds):
                         top = tree[0] if tree[0] != "leaf" else "leaf:" + str(tree[2]) + ":" + str(len(tree[1]))
                         ctx.violation("filter-verdict-wrong:" + top, "the filter's answer is not the boolean combination it denotes",
                                       {"filter": text, "entry_kind": model.kind, "entry": model.name, "got": got[True], "expected": want,
-                                       "fields": repr(model.fields[:6])[:400]})
+                                       "fields": repr(model.fields[:6])[:400],
+                                       "per_key": repr(_per_key_debug(tree, model, entry))[:800],
+                                       "subfields": repr([(f[2], {k: (type(v).__name__, v) for k, v in f[4].items()}) for f in model.fields
+                                                          if f[4]][:2])[:1500], "frozen": getattr(entry, "_message", 1) is None})
                 ctx.nontrivial((shape(tree), model.kind, want))
             if len(ctx.samples) < 3:
                 ctx.sample({"filter": text, "verdicts": [[m.kind, m.name, ref_eval(tree, m)] for _, m in targets[:5]]})
